@@ -130,7 +130,7 @@ def freshness_items(repo):
                       0.0, where=fs.where(), mode="E", func=fs.qualname,
                       detail="a changed file bumps link_version and re-resolves includes and links of every file of the workspace",
                       witness=None if ok else {"reason": "the save path no longer re-resolves every file"}))
-    ok = ("self.workspace.pop(filepath, None)" in src and "self.obj_tree.pop(key, None)" in src
+    ok = ("self.workspace.pop(filepath, None)" in src and "self._remove_file_globals(ast_old, filepath)" in src
           and "other_obj.ast.resolve_links(self.obj_tree, self.link_version)" in src)
     items.append(Item("C10/LangServer.serve_onSave/ensures.delete_forgets", "proved" if ok else "refuted", "structural(freshness)",
                       0.0, where=fs.where(), mode="E", func=fs.qualname,
@@ -138,13 +138,22 @@ def freshness_items(repo):
                       witness=None if ok else {"reason": "a deleted file's objects or links survive"}))
     fu = repo.func(f"{LS}.update_workspace_file")
     src = ast.unparse(fu.node)
-    ok = ("for key in ast_old.global_dict:\n            self.obj_tree.pop(key, None)" in src
+    ok = ("if ast_old is not None:\n        self._remove_file_globals(ast_old, filepath)" in src
           and "for key, obj in ast_new.global_dict.items():\n        self.obj_tree[key] = [obj, filepath]" in src
-          and src.index("self.obj_tree.pop(key, None)") < src.index("self.obj_tree[key] = [obj, filepath]"))
+          and src.index("self._remove_file_globals(ast_old, filepath)") < src.index("self.obj_tree[key] = [obj, filepath]"))
     items.append(Item("C10/LangServer.update_workspace_file/ensures.obj_tree_view", "proved" if ok else "refuted",
                       "structural(freshness)", 0.0, where=fu.where(), mode="E", func=fu.qualname,
                       detail="the previous version's top-level keys are removed before the new version's are added",
                       witness=None if ok else {"reason": "keys of the previous version of the file are not pruned"}))
+    fr = repo.func(f"{LS}._remove_file_globals")
+    rsrc = ast.unparse(fr.node)
+    ok = ("for key in ast_old.global_dict:" in rsrc and "if entry is None or entry[1] != filepath:\n            continue" in rsrc
+          and "self.obj_tree.pop(key)" in rsrc and "self.obj_tree[key] = [other_obj, other_path]" in rsrc
+          and "if other_path == filepath or other_file.ast is None:\n                continue" in rsrc)
+    items.append(Item("C10/LangServer._remove_file_globals/ensures.owned_keys_only", "proved" if ok else "refuted",
+                      "structural(freshness)", 0.0, where=fr.where(), mode="E", func=fr.qualname,
+                      detail="only entries owned by the file are removed; a name another file also declares falls back to that file",
+                      witness=None if ok else {"reason": "entries of other files are dropped, or a duplicate declaration is not restored"}))
     rl_ok = "for var in self.variable_list:\n        var.type_obj = None" in rl_src
     items.append(Item("C10/ast.FortranAST.resolve_links/ensures.type_cache_reset", "proved" if rl_ok else "refuted",
                       "structural(freshness)", 0.0, where=rl.where(), mode="E", func=rl.qualname,
@@ -182,13 +191,26 @@ def extra(repo, reg, tier, seed):
     return items
 
 
-TARGETS = []
-SPEC_ENV = {}
+from contracts import inherit
+
+TARGETS = [f"{inherit.TYPE}.resolve_inherit", f"{inherit.TYPE}._resolve_inherit_parent"]
+SPEC_ENV = dict(inherit.SPEC_ENV)
 AXIOMS = {}
 
 
 def build(reg):
+    # derived data: the inherited member list is rebuilt on every new link version (VCs)
+    inherit.add_resolve_inherit(reg, "C10")
+    inherit.add(reg, "C10")
     return reg
+
+
+def search(func, tier, seed, obligation=""):
+    from contracts import c10_hist
+    if func.endswith("_resolve_inherit_parent"):
+        return inherit.native_search()
+    w, n = c10_hist.run_all(only=("query_then_edit_grandparent_type", "edit_grandparent_only", "change_extends"))
+    return w
 
 
 def replay(obligation, model, rep):
